@@ -264,11 +264,21 @@ var epModel = porcupine.Model{
 
 const c13ns = "ns"
 
+// c13split: a service of the model is a (hostname, namespace) pair written "host" (namespace c13ns) or "host@namespace";
+// the same hostname may exist in two namespaces, each with its own shard set.
+func c13split(svc string) (host, ns string) {
+	if i := strings.IndexByte(svc, '@'); i >= 0 {
+		return svc[:i], svc[i+1:]
+	}
+	return svc, c13ns
+}
+
 func c13shard(i int) model.ShardKey {
 	return model.ShardKey{Cluster: cluster.ID(fmt.Sprintf("c%d", i)), Provider: provider.Kubernetes}
 }
 
 func c13eps(svc string, eps []epE) []*model.IstioEndpoint {
+	_, c13ns := c13split(svc)
 	out := make([]*model.IstioEndpoint, 0, len(eps))
 	for _, e := range eps {
 		out = append(out, &model.IstioEndpoint{
@@ -288,19 +298,21 @@ func c13eps(svc string, eps []epE) []*model.IstioEndpoint {
 func c13snapshot(idx *model.EndpointIndex) string {
 	z := idx.Shardz()
 	var names []string
+	byName := map[string]*model.EndpointShards{}
 	for svc, byNs := range z {
-		for ns := range byNs {
+		for ns, v := range byNs {
+			n := svc
 			if ns != c13ns {
-				names = append(names, svc+"@"+ns)
-			} else {
-				names = append(names, svc)
+				n = svc + "@" + ns
 			}
+			names = append(names, n)
+			byName[n] = v
 		}
 	}
 	sort.Strings(names)
 	var b strings.Builder
 	for _, n := range names {
-		v := z[n][c13ns]
+		v := byName[n]
 		var sks []int
 		byKey := map[int][]*model.IstioEndpoint{}
 		for sk, eps := range v.Shards {
@@ -347,6 +359,12 @@ func runC13a(t *testing.T, r *engine.Run) {
 	nops := 3 + tp.Choose(10, "nops")
 	useHook := !tp.Bool(1, 8, "nohook") // a few runs without the inner window (pure op-level interleaving)
 	svcs := []string{"s1.example.com", "s2.example.com"}[:nsvc]
+	if tp.Bool(1, 3, "twoNamespaces") {
+		// the first hostname also exists in a second namespace: a different service with its own shard set
+		svcs = append(svcs, "s1.example.com@ns2")
+		nsvc++
+		r.Probe("hostname_in_two_namespaces")
+	}
 	addrs := []string{"10.0.0.1", "10.0.0.2", "10.0.0.3"}
 	sas := []string{"", "sa1", "sa2"}
 	r.Config["nreg"] = fmt.Sprint(nreg)
@@ -420,16 +438,22 @@ func runC13a(t *testing.T, r *engine.Run) {
 		in := op.in
 		switch in.kind {
 		case "update":
-			pt := idx.UpdateServiceEndpoints(c13shard(in.shard), in.svc, c13ns, c13eps(in.svc, in.eps), true)
+			host, ns := c13split(in.svc)
+			pt := idx.UpdateServiceEndpoints(c13shard(in.shard), host, ns, c13eps(in.svc, in.eps), true)
 			op.out = epOut{push: int(pt)}
 		case "delsvc":
-			idx.DeleteServiceShard(c13shard(in.shard), in.svc, c13ns, false)
+			host, ns := c13split(in.svc)
+			idx.DeleteServiceShard(c13shard(in.shard), host, ns, false)
 		case "delshard":
 			idx.DeleteShard(c13shard(in.shard))
 		case "prune":
 			keep := map[string]sets.String{}
 			for _, k := range in.keep {
-				keep[k] = sets.New(c13ns)
+				host, ns := c13split(k)
+				if keep[host] == nil {
+					keep[host] = sets.New[string]()
+				}
+				keep[host].Insert(ns)
 			}
 			idx.PruneShard(c13shard(in.shard), keep)
 		case "read":
